@@ -6,4 +6,4 @@ CONSTANTS
   SweepFirst = 4
   MaxFields = 48
   TruncEveryMax = 400
-INVARIANTS PlanWellFormed Emit
+INVARIANTS StepsAgree IdentWellFormed PlanWellFormed Emit
